@@ -863,7 +863,7 @@ func main() {
 			fmt.Fprintln(os.Stderr, strings.Join(ks, "\n"))
 		}
 	}
-	r.Rule("deterministic enumeration: (every marshal and unmarshal case is repeated with the option list spelt as the opposite of every setting followed by every setting: same bytes / same outcome) runtimes {gogo, legacy golang/protobuf v1, gv2, gv1} x message types (corpus p3/p2[/p3opt]: Scalars, Repeated, Oneofs, MapsV, Required, ReqMix [thorough: all]; the repository's six example packages; well-known types used directly; gogo messages with gogoproto extensions) x value trees (gcore.Singles + Specials [+ Pairs thorough] + JSON-hostile strings/bytes + hand-built) x {UseEnumNumbers} x {IncludeZeroValues} x {indent unset, \"\", \" \", \"\\t\", \"    \"}; per output: json.Valid, decode through csproto.JSONUnmarshaler AND the owning runtime's own decoder + bit-exact tree comparison, encoding/json.Marshal/Unmarshal driving the adapters, indentation line-prefix probe, enum number/name probe and zero-value key probe on the generic structure, content equality across indent strings. Unmarshal side: baseline document {as produced, unknown key (scalar/composite) at top level and inside nested message objects, each populated required field removed (top level and one level down), both} x AllowUnknownFields{f,t} x AllowPartialMessages{f,t}. Plus nil / typed nil / unsupported values / json.Marshaler-Unmarshaler delegation. distinct_nontrivial = outputs that are not an empty object.")
+	r.Rule("deterministic enumeration: (one adapter value encodes, the message is emptied, the same adapter encodes again: the first result must not change) (every marshal and unmarshal case is repeated with the option list spelt as the opposite of every setting followed by every setting: same bytes / same outcome) runtimes {gogo, legacy golang/protobuf v1, gv2, gv1} x message types (corpus p3/p2[/p3opt]: Scalars, Repeated, Oneofs, MapsV, Required, ReqMix [thorough: all]; the repository's six example packages; well-known types used directly; gogo messages with gogoproto extensions) x value trees (gcore.Singles + Specials [+ Pairs thorough] + JSON-hostile strings/bytes + hand-built) x {UseEnumNumbers} x {IncludeZeroValues} x {indent unset, \"\", \" \", \"\\t\", \"    \"}; per output: json.Valid, decode through csproto.JSONUnmarshaler AND the owning runtime's own decoder + bit-exact tree comparison, encoding/json.Marshal/Unmarshal driving the adapters, indentation line-prefix probe, enum number/name probe and zero-value key probe on the generic structure, content equality across indent strings. Unmarshal side: baseline document {as produced, unknown key (scalar/composite) at top level and inside nested message objects, each populated required field removed (top level and one level down), both} x AllowUnknownFields{f,t} x AllowPartialMessages{f,t}. Plus nil / typed nil / unsupported values / json.Marshaler-Unmarshaler delegation. distinct_nontrivial = outputs that are not an empty object.")
 	r.Assume("values whose required fields are not all set are completed first (required fields filled at every nesting level): every runtime refuses to marshal them and the adapter offers no marshal-side AllowPartial option")
 	r.Assume("a failing oracle is re-run on the owning runtime called directly with the equivalent options; when the runtime itself shows the same behaviour (e.g. google.protobuf.NullValue with an undefined number always renders null, values the runtime's own codec cannot round-trip) the case is counted under third_party_runtime_limitations_excluded, not as a violation")
 	r.Assume("limitations observed that way on the unchanged repository: google.protobuf.NullValue fields holding an undefined number always render as null (all runtimes); gogo's jsonpb cannot parse its own rendering of the maximum Duration; golang's and gogo's jsonpb indent a top-level Struct/Value one level too deep. NaN, +-Inf, -0, 64-bit extremes, undefined numbers of ordinary enums and every byte value ARE included: all runtimes round-trip them")
